@@ -130,3 +130,4 @@ Definition slate_roundtrip (db : databox) (nms : option (list string)) (fr from 
 End SlateModel.
 
 Arguments FScal {A}. Arguments FList {A}.
+Arguments o_nvar {A}. Arguments o_fallbacks {A}. Arguments o_overwrites {A}. Arguments o_clip_base {A}. Arguments o_base {A}.
